@@ -14,7 +14,11 @@ CHECKS = {
              "(rational enclosures of exp proved against Coq's exp); every compared quantity is beta*(logp y - logp x); "
              "stretch-move reverse / balance / z-sampler range and inverse CDF; the retry-until-accept chain has stationary "
              "weights pi*A (so the pinned samplers' first sentence fails: known finding) and the pinned stretch proposal is "
-             "irreversible (repaired). Every recorded transition of the five real samplers (every proposal point, accept and "
+             "irreversible (repaired); a reflected proposal along an oblique direction (PCA with bounds) and a reflected stretch move "
+             "(ensemble with bounds) admit NO reverse move at exact rational witnesses (Properties/C01Oblique.v: known finding); "
+             "the on-line tuning of widths / step size keeps every width positive, clamps every factor, moves towards the target "
+             "rate and never shrinks the check interval (Properties/Adaptation.v, tied by exact bookkeeping comparison and interval "
+             "goals on real Parameter / EpsilonSelector objects). Every recorded transition of the five real samplers (every proposal point, accept and "
              "reject branch, tempering, bounds) is replayed through Model/Samplers.v inside Coq. Not proved: the ergodic limit, "
              "P(U<p)=p, the stretch Jacobian, HMC detailed balance in the continuum, effect of adaptation.",
         note="Trusted: Coq kernel + vm_compute; Reals axioms (sig_forall_dec, sig_not_dec, functional_extensionality_dep, classic); "
